@@ -624,7 +624,7 @@ def one_step_cell_2d(kernel, boundary, rho, sigma, seed, n=200000, bins=5):
                              "anti": [float(after[0, -1] / e), float(after[-1, 0] / e)]}}
 
 
-def multi_step_cell(kernel, target, beta, nu, m, seed, n=40000, d=1, per=None, refl=None):
+def multi_step_cell(kernel, target, beta, nu, m, seed, n=40000, d=1, per=None, refl=None, calls=1):
     """MULTI-step invariance oracle: exact i.i.d. draws from the tempered target (product over `d` coordinates of the 1-D
     target) -> ONE call of the real `parallel_mcmc` with n_steps = n_max = m, i.e. exactly max(1, m*d) passes of ONE stateful
     runner with everything enabled (adaptation as in the code) -> chi-square of the 20-bin histogram of coordinate 0 against the
@@ -652,8 +652,18 @@ def multi_step_cell(kernel, target, beta, nu, m, seed, n=40000, d=1, per=None, r
         warnings.simplefilter("ignore")
         with common.patched(np.random, "gamma", rs.gamma), common.patched(np.random, "randn", rs.randn), \
                 common.patched(np.random, "rand", rs.rand):
-            out = M.parallel_mcmc(u, u.copy(), logl, None, np.zeros(n, dtype=int), beta, ms, log_likelihood, lambda t: t, None,
-                                  m, m, kernel, per, refl, False)
+            # call-sequence family: the SAME input arrays are reused for `calls` consecutive calls (replicates started from one
+            # fixed ensemble); every call must leave them untouched, so the last call is again `m*d` passes from exact draws
+            x_in, a_in = u.copy(), np.zeros(n, dtype=int)
+            saved = (u.copy(), x_in.copy(), logl.copy(), a_in.copy())
+            modified = []
+            for _c in range(calls):
+                out = M.parallel_mcmc(u, x_in, logl, None, a_in, beta, ms, log_likelihood, lambda t: t, None,
+                                      m, m, kernel, per, refl, False)
+                for nm, arr, sv in zip(("u", "x", "logl", "assignments"), (u, x_in, logl, a_in), saved):
+                    if not np.array_equal(arr, sv) and nm not in modified:
+                        modified.append(nm)
+            u = saved[0]
     w = np.asarray(out[0])
     expct = n * prob
     # exact part: no particle may sit outside [0,1] in a coordinate that is neither periodic nor reflective (all start inside)
@@ -671,8 +681,12 @@ def multi_step_cell(kernel, target, beta, nu, m, seed, n=40000, d=1, per=None, r
         if cj > chi_a:
             chi_a, worst, ratio = cj, j, [float(after[0] / expct[0]), float(after[-1] / expct[-1])]
     thr = chi2_threshold()
-    return {"chi2": chi_a, "chi2_before": chi_b, "threshold": thr, "fails": (chi_a > thr and chi_b <= thr) or outside > 0,
-            "passes": int(out[6]), "edge_ratio": ratio, "acceptance": float(out[5]), "outside": outside, "coordinate": worst}
+    lw = np.asarray(log_likelihood(np.asarray(out[1]))[0], dtype=float)
+    logl_mismatch = int(np.sum(~np.isclose(np.asarray(out[2], dtype=float), lw, rtol=1e-9, atol=1e-9, equal_nan=True)))
+    return {"chi2": chi_a, "chi2_before": chi_b, "threshold": thr,
+            "fails": (chi_a > thr and chi_b <= thr) or outside > 0 or bool(modified) or logl_mismatch > 0,
+            "passes": int(out[6]), "edge_ratio": ratio, "acceptance": float(out[5]), "outside": outside, "coordinate": worst,
+            "modified": modified, "logl_mismatch": logl_mismatch, "calls": calls}
 
 
 CELLS_MULTI = [
@@ -683,6 +697,9 @@ CELLS_MULTI = [
     ("tpcn", "uniform", 1.0, 30.0, 8, 1),
     ("rwm", "interior", 1.0, 3.0, 10, 1),
     ("rwm", "tilted", 1.0, 3.0, 6, 2),
+    # the same input arrays reused for 2-3 consecutive calls, few passes each (trailing element: number of calls)
+    ("tpcn", "interior", 1.0, 3.0, 2, 1, None, None, 2),
+    ("rwm", "tilted", 1.0, 3.0, 1, 2, None, None, 3),
     # both index options together, as numpy arrays / lists / tuples (RWM with a diagonal mode covariance: proved invariant,
     # rows 7-9; tpCN on folded coordinates is the known finding F17 and is not used here); hard coordinates remain
     ("rwm", "tilted", 1.0, 3.0, 3, 4, ("int64", [1]), ("int64", [2])),
@@ -821,29 +838,33 @@ def _multi_step_search(tier, hints):
     for cell in cells:
         kernel, target, beta, nu, m, d = cell[:6]
         pspec, rspec = (cell[6], cell[7]) if len(cell) > 6 else (None, None)
-        tag = f"multi/{kernel}/{target}/{beta}/{nu}/{m}/{d}/{pspec}/{rspec}"
+        calls = cell[8] if len(cell) > 8 else 1
+        tag = f"multi/{kernel}/{target}/{beta}/{nu}/{m}/{d}/{pspec}/{rspec}/{calls}"
         seed = (base * 1000003 + int(common.digest(tag), 16)) % (2 ** 31 - 1)
         try:
-            r = multi_step_cell(kernel, target, beta, nu, m, seed, n=n, d=d, per=_mk_index(pspec), refl=_mk_index(rspec))
+            r = multi_step_cell(kernel, target, beta, nu, m, seed, n=n, d=d, per=_mk_index(pspec), refl=_mk_index(rspec), calls=calls)
         except (common.LeanError, OSError, MemoryError):
             raise
         except Exception as e:      # the real code raising on a valid configuration (every cell runs on the unchanged tree)
             return [{"what": f"parallel_mcmc raised {type(e).__name__}: {e} on a valid configuration (sample={kernel}, d={d}, "
                              f"periodic={pspec}, reflective={rspec}, n_steps = n_max = {m})",
                      "oracle": "c03multi", "kernel": kernel, "target": target, "beta": beta, "nu": nu, "m": m, "d": d, "seed": seed,
-                     "n": 200, "per": pspec, "refl": rspec}]
+                     "n": 200, "per": pspec, "refl": rspec, "calls": calls}]
         if r["chi2_before"] > r["threshold"]:
             raise common.LeanError(f"oracle self-check failed: exact sampler of target {target} has chi2 {r['chi2_before']}")
         if r["fails"]:
             what = (f"{r['outside']} of {n} particles OUTSIDE the unit cube in a hard-boundary coordinate after " if r["outside"]
-                    else "multi-step invariance violated: after ")
+                    else f"parallel_mcmc modified its input arrays {r['modified']} in place; call {calls} of {calls} on the SAME "
+                         f"(u, x, logl, assignments) arrays: after " if r["modified"]
+                    else f"returned logl is not the log-likelihood of the returned x for {r['logl_mismatch']} particles after "
+                    if r["logl_mismatch"] else f"multi-step invariance violated (call {calls} of {calls} on the same input arrays): after ")
             return [{"what": what + f"{r['passes']} passes of ONE parallel_mcmc call (n_steps = n_max = {m}, d = {d}, periodic={pspec}, "
                              f"reflective={rspec}, everything enabled) from exact in-cube target draws; coordinate {r['coordinate']}: "
-                             f"chi2={r['chi2']:.1f} > {r['threshold']:.1f} (p<1e-9, {NBINS} bins, N={n}; before the call "
+                             f"chi2={r['chi2']:.1f} (threshold {r['threshold']:.1f} = p<1e-9, {NBINS} bins, N={n}; before the call "
                              f"{r['chi2_before']:.1f})",
                      "oracle": "c03multi", "kernel": kernel, "target": target, "beta": beta, "nu": nu, "m": m, "d": d, "seed": seed, "n": n,
-                     "per": pspec, "refl": rspec, "chi2": r["chi2"], "edge_ratio": r["edge_ratio"], "passes": r["passes"],
-                     "outside": r["outside"]}]
+                     "per": pspec, "refl": rspec, "calls": calls, "chi2": r["chi2"], "edge_ratio": r["edge_ratio"],
+                     "passes": r["passes"], "outside": r["outside"], "modified": r["modified"]}]
     return []
 
 
@@ -854,12 +875,12 @@ def replay(obj):
     if f.get("oracle") == "c03multi":
         try:
             r = multi_step_cell(f["kernel"], f["target"], f["beta"], f["nu"], f["m"], f["seed"], n=f.get("n", 40000), d=f.get("d", 1),
-                                per=_mk_index(f.get("per")), refl=_mk_index(f.get("refl")))
+                                per=_mk_index(f.get("per")), refl=_mk_index(f.get("refl")), calls=f.get("calls", 1))
         except (common.LeanError, OSError, MemoryError):
             raise
         except Exception as e:
             return {"fails": True, "detail": f"parallel_mcmc raised {type(e).__name__}: {e}"}
-        return {"fails": bool(r["fails"]), "detail": f"outside={r['outside']} chi2={r['chi2']:.1f} threshold={r['threshold']:.1f} after {r['passes']} passes "
+        return {"fails": bool(r["fails"]), "detail": f"modified={r['modified']} outside={r['outside']} chi2={r['chi2']:.1f} threshold={r['threshold']:.1f} after {r['passes']} passes "
                                                      f"(before: {r['chi2_before']:.1f}) edge_ratio={r['edge_ratio']}"}
     if f.get("oracle") == "c03ms":
         return c03_modes.replay(f)
@@ -1026,6 +1047,8 @@ def _real_run(cfg, rng, force_p=0.15):
     strict = _strict_dims(cfg)
     tape = RunTape(rng, strict, force_p)
     obs = dict(passes=[], ll_rows=0, tape=tape, ms=ms, x0=x.copy(), logl0=logl.copy(), strict=strict, runner=None,
+               inputs=dict(u=(u, np.array(u, copy=True)), x=(x, x.copy()), logl=(logl, logl.copy()),
+                           assignments=(cfg["assign"], np.array(cfg["assign"], copy=True))),
                frozen=dict(assign=np.array(cfg["assign"]).copy(), means=ms.means.copy(), chol=ms.chol_covariances.copy(),
                            inv=ms.inv_covariances.copy(), dof=ms.degrees_of_freedom.copy()))
     classes = (M.TPCNRunner, M.RWMRunner)
@@ -1161,6 +1184,24 @@ def _run_invariants(cfg, obs, out):
             bad.append(f"mode statistics `{nm}` changed during run")
     if r.beta != cfg["beta"] or r.periodic is not cfg["per"] or r.reflective is not cfg["refl"] or r.mode_stats is not ms:
         bad.append("beta / periodic / reflective / mode_stats attribute changed during run")
+    # the call does not modify its inputs (the runner works on clones) and does not hand the caller's arrays back
+    for nm, (arr, saved) in obs.get("inputs", {}).items():
+        if not np.array_equal(np.asarray(arr), saved, equal_nan=(nm != "assignments")):
+            bad.append(f"parallel_mcmc modified its input array `{nm}` in place (a second call on the same arrays would start from "
+                       f"inconsistent (u, x, logl)): {saved.tolist()[:4]}... -> {np.asarray(arr).tolist()[:4]}...")
+    if out is not None:
+        for nm, j in (("u", 0), ("x", 1), ("logl", 2)):
+            if isinstance(out[j], np.ndarray) and isinstance(obs["inputs"][nm][0], np.ndarray) \
+                    and np.shares_memory(out[j], obs["inputs"][nm][0]):
+                bad.append(f"the returned `{nm}` shares memory with the input array")
+        # the returned log-likelihoods belong to the returned positions
+        with warnings.catch_warnings():
+            warnings.simplefilter("ignore")
+            want = np.asarray(cfg["log_likelihood"](np.asarray(out[1]))[0], dtype=float)
+        got = np.asarray(out[2], dtype=float)
+        if got.shape != want.shape or not all(_close(float(a), float(b), abs(float(b)) if math.isfinite(float(b)) else 0.0)
+                                              for a, b in zip(got, want)):
+            bad.append(f"returned logl {got.tolist()[:4]}... is not the log-likelihood of the returned x {want.tolist()[:4]}...")
     if obs.get("pt_outside"):
         bad.append(f"prior_transform was called at a point outside the unit cube in a hard-boundary coordinate "
                    f"(hard coordinates {obs['strict']}, periodic={_idx_repr(cfg['per'])}, reflective={_idx_repr(cfg['refl'])}): "
